@@ -451,8 +451,7 @@ func init() {
 		if err != nil {
 			return nil, err
 		}
-		return []TextEdit{p.editReplace(decl, "setScratch = setScratch[:0]\noSet := setScratch"), p.editRange(fd.End(), fd.End(), "\n\nvar setScratch = make([]interface{}, 0, 2)\n"),
-		}, nil
+		return []TextEdit{p.editReplace(decl, "setScratch = setScratch[:0]\noSet := setScratch"), p.editRange(fd.End(), fd.End(), "\n\nvar setScratch = make([]interface{}, 0, 2)\n")}, nil
 	}})
 	registerControl(&ControlDef{Name: "cache runner goroutine captures the loop variable", Rule: "G-LOOPVAR", Expect: "connect|goroutine started in a loop", Edit: func(p *Program) ([]TextEdit, error) {
 		fd, _, err := p.funcDecl("client", "ovsdbClient", "connect")
@@ -496,4 +495,15 @@ func init() {
 	ctl("transact accepts an empty operation list", "G-ARGS", "at least one operation", "server", "OvsdbServer", "Transact", kExpr, "len(args) < 2", 0, to("len(args) < 1"))
 	ctl("delete-by-keys special case for every column", "P-NIL-TYPEOBJ", "addMutateOperation|deref", "updates", "ModelUpdates", "addMutateOperation", kExpr, `mutation.Mutator == "delete" && column.Type == ovsdb.TypeMap && reflect.TypeOf(mutation.Value) != reflect.TypeOf(ovsdb.OvsMap{})`, 0, to(`mutation.Mutator == "delete" && reflect.TypeOf(mutation.Value) != reflect.TypeOf(ovsdb.OvsMap{})`))
 	ctl("leader check signals traffic", "T-WIRE", "isEndpointLeader|transact", "client", "ovsdbClient", "isEndpointLeader", kExpr, "o.transact(ctx, serverDB, true, op)", 0, to("o.transact(ctx, serverDB, false, op)"))
+}
+
+func init() {
+	// ---- rules added after the sixth wave
+	ctl("substitution pass skipped while no name is known", "N-FIELDS", "ExpandNamedUUIDs|select member Where", "ovsdb", "", "ExpandNamedUUIDs", kStmt, "range op.Where", 0, before("if len(uuidMap) == 0 {\ncontinue\n}"))
+	ctl("traffic signalled before the RPC's error is looked at", "T-TRAFFIC", "transact|traffic signalled", "client", "ovsdbClient", "transact", kStmt, "err := o.rpcClient.CallWithContext(ctx, \"transact\", args, &reply)", 0, func(orig string) string {
+		return orig + "\nif o.trafficSeen != nil {\nselect {\ncase o.trafficSeen <- struct{}{}:\ndefault:\n}\n}"
+	})
+	ctl("OvsMap decoder refuses boolean keys", "K-ATOMKEYS", "UnmarshalJSON|bool key admitted", "ovsdb", "OvsMap", "UnmarshalJSON", kCase, "string, float64, bool, UUID", 0, sub("float64, bool", "float64"))
+	ctl("Row decoder keeps going after a column that cannot be decoded", "ERR-USE-CODEC", "(*ovsdb.Row).UnmarshalJSON|error of", "ovsdb", "Row", "UnmarshalJSON", kStmt, "return err", 0, to("continue"))
+	ctl("event processor not counted in handlerShutdown", "R-WG", "connect|go ", "client", "ovsdbClient", "connect", kStmt, "defer o.handlerShutdown.Done()", 0, del)
 }
